@@ -4,7 +4,7 @@
 # that is put in front of /repo on PYTHONPATH (replay subprocesses inherit it).  tools/try_seed.sh is the prescribed in-place variant.
 label=$1; pf=$2; pid=$3; tier=${4:-quick}
 [ $# -ge 4 ] && shift 4 || shift $#
-d=/tmp/try_$label; rm -rf $d; mkdir -p $d && cp -r /repo/tensorly $d/ && find $d -name __pycache__ -prune -exec rm -rf {} + 
+d=/tmp/try_$label; rm -rf $d; mkdir -p $d && git -C /repo archive HEAD tensorly | tar -x -C $d  # committed tree: /repo's working tree may carry a seed applied by tools/record_seeds.py
 ( cd $d && git apply $pf ) || { echo "APPLY-FAILED $label"; rm -rf $d; exit 3; }
 cd /verif && sh ./setup.sh >/dev/null 2>&1
 PYTHONPATH=$d PYTHONDONTWRITEBYTECODE=1 PYTHONWARNINGS=ignore timeout 1500 .venv/bin/python -u -m vt.main $pid --tier $tier --no-evidence "$@" > /tmp/try_${label}_$pid.log 2>&1; rc=$?
